@@ -359,6 +359,9 @@ def run_shard(spec):
     for n in range(spec["programs"]):
         g = S.Gen(rng, max_nest=rng.randint(1, spec["nest"]), max_stmts=rng.randint(2, spec["stmts"]))
         sp = g.spec()
+        if rng.random() < 0.25:
+            sp.d["negedge"] = True          # the sync domain is clocked on the falling edge ($dff CLK_POLARITY 0)
+            out["hist"]["negedge-sync-domain"] = out["hist"].get("negedge-sync-domain", 0) + 1
         steps = c02.make_stimulus(rng, sp, spec["steps"])
         nscat = 1 if n % 3 else 3
         for k in range(nscat):
